@@ -85,7 +85,7 @@ Definition macro_include (pb : list block -> st -> st) (s : st) : st :=
     else
       let '(path, found) := search_inc_file name s3 in
       if negb found then (if process s3 then err "no such frundis source file" s3 else s3) else
-      if existsb (str_eqb path) (incstack s3) then (if process s3 then err "recursive inclusion" s3 else s3) else
+      if existsb (str_eqb (PathClean.clean path)) (incstack s3) then (if process s3 then err "recursive inclusion" s3 else s3) else
       match fs_get path s3 with
       | None => s3
       | Some src =>
@@ -93,7 +93,7 @@ Definition macro_include (pb : list block -> st -> st) (s : st) : st :=
         match e with
         | Some _ => err "parse error" s3
         | None =>
-          let s4 := s3 <| cfile := path |> <| incstack ::= fun l => l ++ [path] |> <| has_cur := (match bs with [] => false | _ => true end) |> in
+          let s4 := s3 <| cfile := path |> <| incstack ::= fun l => l ++ [PathClean.clean path] |> <| has_cur := (match bs with [] => false | _ => true end) |> in
           let s5 := pb bs s4 in
           s5 <| cfile := cfile s3 |> <| incstack := incstack s3 |> <| has_cur := has_cur s3 |>
         end
@@ -248,7 +248,7 @@ Definition eof_sweep (s2 : st) : st :=
 
 Definition start_st (fmtname : str) (md : nat) (wd : world) (main : str) : st :=
   init_st <| format := fmtname |> <| mode := md |> <| existing := w_existing wd |> <| fs := w_fs wd |> <| libdirs := w_libdirs wd |>
-          <| unrestricted := w_unrestricted wd |> <| urls := w_urls wd |> <| cfile := main |> <| incstack := [main] |>
+          <| unrestricted := w_unrestricted wd |> <| urls := w_urls wd |> <| cfile := main |> <| incstack := [PathClean.clean main] |>
           <| params := (if str_eqb fmtname (R "xhtml") || str_eqb fmtname (R "epub") then [(R "xhtml-index", R "full"); (R "lang", R "en")] else [(R "lang", R "en")]) |>.
 
 Definition compile (fuel : nat) (fmtname : str) (md : nat) (wd : world) (main : str) (bs : list block) : st :=
